@@ -825,9 +825,19 @@ func siteIn(fn *ssa.Function, call ssa.CallInstruction) ssa.CallInstruction {
 		if top == fn {
 			return in
 		}
-		var sites []ssa.CallInstruction
+		var sites, inFn []ssa.CallInstruction
 		for _, cs := range staticSites[top] {
 			sites = append(sites, cs)
+			t2 := cs.Parent()
+			for t2.Parent() != nil {
+				t2 = t2.Parent()
+			}
+			if t2 == fn {
+				inFn = append(inFn, cs)
+			}
+		}
+		if len(inFn) == 1 {
+			return inFn[0] // a helper shared by several functions: the one call of it in fn
 		}
 		if len(sites) != 1 {
 			return nil
